@@ -400,12 +400,15 @@ func main() {
 	// ---- SourceLRU.v
 	writeIfChanged(filepath.Join(outDir, "SourceLRU.v"), lruSummary(cacheF))
 
-	// ---- SourceFns.v: selected functions as MiniGo syntax trees
+	// ---- SourceFns*.v: selected functions as MiniGo syntax trees (one file per family, so that a change to one
+	// function recompiles only the proofs about that family)
 	commonF := parseFile(filepath.Join(repo, "valid/common.go"))
 	fnF := parseFile(filepath.Join(repo, "valid/validfn.go"))
-	writeIfChanged(filepath.Join(outDir, "SourceFns.v"), miniGo(
-		map[string]*ast.File{"valid/common.go": commonF, "valid/cache.go": cacheF, "valid/validfn.go": fnF},
-		[][2]string{{"valid/common.go", "validInputSize"}, {"valid/common.go", "ParseValidNameKV"}, {"valid/common.go", "IsExported"}, {"valid/validfn.go", "eq"},
-			{"valid/cache.go", "LRUCache_Store"}, {"valid/cache.go", "LRUCache_Load"}, {"valid/cache.go", "LRUCache_Delete"},
-			{"valid/cache.go", "LRUCache_delete"}, {"valid/cache.go", "LRUCache_Len"}}))
+	fnFiles := map[string]*ast.File{"valid/common.go": commonF, "valid/cache.go": cacheF, "valid/validfn.go": fnF}
+	writeIfChanged(filepath.Join(outDir, "SourceFnsSize.v"), miniGo(fnFiles, [][2]string{{"valid/common.go", "validInputSize"}, {"valid/validfn.go", "eq"}}))
+	writeIfChanged(filepath.Join(outDir, "SourceFnsParse.v"), miniGo(fnFiles, [][2]string{{"valid/common.go", "ParseValidNameKV"}, {"valid/common.go", "IsExported"}}))
+	writeIfChanged(filepath.Join(outDir, "SourceFnsSplit.v"), miniGo(fnFiles, [][2]string{{"valid/common.go", "ValidNamesSplit"}}))
+	writeIfChanged(filepath.Join(outDir, "SourceFnsLRU.v"), miniGo(fnFiles, [][2]string{{"valid/cache.go", "LRUCache_Store"}, {"valid/cache.go", "LRUCache_Load"},
+		{"valid/cache.go", "LRUCache_Delete"}, {"valid/cache.go", "LRUCache_delete"}, {"valid/cache.go", "LRUCache_Len"}}))
+	_ = os.Remove(filepath.Join(outDir, "SourceFns.v"))
 }
